@@ -259,4 +259,110 @@ theorem C10_payload_plain (G : V3Glue.MsgForms) (F : V3Glue.ParamForms) (h : V3G
       = .ok (48, Ber.tlv 4 ce.c ++ Ber.tlv 4 cn.c ++ Ber.tlv pdu.t pdu.c) :=
   V3Glue.payload_plain G F h p boots time fpl ce cn pdu trailing fuel flags hplain hoks hfuel
 
+/-! ### the whole incoming path, from the datagram -/
+
+/-- the shape `reset_raw_digest` walks through, for a message written by `V3Glue.v3wire` -/
+def shapeOf (G : V3Glue.MsgForms) (F : V3Glue.ParamForms) : RawDigest.Shape :=
+  ⟨G.f0, G.fv, G.fh, G.fsp, G.fsi, F.fe, F.fb, F.ft, F.fu, F.fa, 48, 2, 48, 4, 48, 4, 2, 2, 4, 4⟩
+
+def partsOf (G : V3Glue.MsgForms) (F : V3Glue.ParamForms) (h : V3Glue.HdrC) (p : UsmParams.Params) (boots time : Bytes)
+    (pl : RawTlv) (trailing : Bytes) : RawDigest.Parts :=
+  ⟨h.ver, rawBytes (V3Glue.hdrItems G h), p.engineId, boots, time, p.user, (V3Glue.tStr F.fp p.priv).bytes, pl.bytes, trailing⟩
+
+theorem inner_eq (G : V3Glue.MsgForms) (F : V3Glue.ParamForms) (h : V3Glue.HdrC) (p : UsmParams.Params) (boots time : Bytes)
+    (pl : RawTlv) (trailing : Bytes) :
+    RawDigest.inner (shapeOf G F) (partsOf G F h p boots time pl trailing) p.auth = rawBytes (V3Glue.paramItems F p boots time) := by
+  simp [RawDigest.inner, shapeOf, partsOf, V3Glue.paramItems, rawBytes, RawTlv.bytes, V3Glue.tStr, V3Glue.tInt, List.append_assoc]
+
+theorem sec_eq (G : V3Glue.MsgForms) (F : V3Glue.ParamForms) (h : V3Glue.HdrC) (p : UsmParams.Params) (boots time : Bytes)
+    (pl : RawTlv) (trailing : Bytes) :
+    RawDigest.sec (shapeOf G F) (partsOf G F h p boots time pl trailing) p.auth = V3Glue.spBlock G F p boots time := by
+  simp only [RawDigest.sec, inner_eq, V3Glue.spBlock]
+  rfl
+
+theorem body_eq (G : V3Glue.MsgForms) (F : V3Glue.ParamForms) (h : V3Glue.HdrC) (p : UsmParams.Params) (boots time : Bytes)
+    (pl : RawTlv) (trailing : Bytes) :
+    RawDigest.body (shapeOf G F) (partsOf G F h p boots time pl trailing) p.auth
+      = rawBytes (V3Glue.msgItems G F h p boots time pl) := by
+  simp only [RawDigest.body, sec_eq]
+  simp [shapeOf, partsOf, V3Glue.msgItems, rawBytes, RawTlv.bytes, V3Glue.tStr, V3Glue.tInt, V3Glue.tSeq, List.append_assoc]
+
+theorem v3wire_eq_wire (G : V3Glue.MsgForms) (F : V3Glue.ParamForms) (h : V3Glue.HdrC) (p : UsmParams.Params) (boots time : Bytes)
+    (pl : RawTlv) (trailing : Bytes) :
+    V3Glue.v3wire G F h p boots time pl trailing
+      = RawDigest.wire (shapeOf G F) (partsOf G F h p boots time pl trailing) p.auth := by
+  simp only [RawDigest.wire, body_eq, V3Glue.v3wire]
+  rfl
+
+theorem shape_ok (G : V3Glue.MsgForms) (F : V3Glue.ParamForms) (h : V3Glue.HdrC) (p : UsmParams.Params) (boots time : Bytes)
+    (pl : RawTlv) (trailing : Bytes) (hok : G.ok F h p boots time pl) (hF : F.ok p boots time) :
+    (shapeOf G F).ok (partsOf G F h p boots time pl trailing) p.auth := by
+  obtain ⟨h0, hv, hh, _, _, _, _, hsp, hsi, _⟩ := hok
+  obtain ⟨he, hbo, hti, hu, ha, _⟩ := hF
+  refine ⟨?_, hv, hh, ?_, ?_, he, hbo, hti, hu, ha⟩
+  · rw [body_eq]; exact h0
+  · rw [sec_eq]; exact hsp
+  · rw [inner_eq]; exact hsi
+
+/-- **An authentic response is accepted, from the octets on.**  The agent writes an SNMPv3 message —
+    any admissible definite length form at every level, anything behind it — whose digest field
+    holds the MAC, under the user's localised key, of the same datagram with twelve zero octets in
+    that field; user name and msgFlags are those of the credentials; msgData is what the payload
+    step hands on (`hpay`) and the USM payload processing reads `sc` from it without a USM error
+    report, `sc` carrying a PDU.  Then `V3MPM.decode` as modelled from the raw datagram — glue
+    (`Message.decode`, `USMSecurityParameters.decode`), `reset_raw_digest`, `process_incoming_message`
+    — returns exactly `sc`. -/
+theorem C10_accepts_datagram (cr : Crypto) (c : Creds)
+    (G : V3Glue.MsgForms) (F : V3Glue.ParamForms) (h : V3Glue.HdrC) (p : UsmParams.Params) (boots time : Bytes)
+    (pl : RawTlv) (trailing : Bytes) (fuel : Nat) (dt : Nat) (dc : Bytes) (sc : Spec.ScopedPdu)
+    (hok : G.ok F h p boots time pl) (hF : F.ok p boots time)
+    (hb : p.boots = intDecode true boots) (ht : p.time = intDecode true time) (hfuel : 5 ≤ fuel)
+    (hpay : V3Glue.payloadOf (V3Glue.v3wire G F h p boots time pl trailing) (fromBE h.flg)
+      (V3Glue.plNode G F h p boots time pl) fuel = .ok (dt, dc))
+    (huser : p.user = c.user)
+    (hauthf : (fromBE h.flg % 2 == 1) = c.auth.isSome) (hprivf : (fromBE h.flg / 2 % 2 == 1) = c.priv.isSome)
+    (hagent : ∀ pw, c.auth = some pw → p.auth.length = 12 ∧
+      p.auth = cr.mac (cr.loc pw p.engineId)
+        (V3Glue.v3wire G F h { p with auth := RawDigest.zeros12 } boots time pl trailing))
+    (hpayload : extractScoped cr c ⟨intDecode true h.mid, intDecode true h.mms, fromBE h.flg, intDecode true h.mdl,
+        p.engineId, p.boots, p.time, p.user, p.auth, p.priv, dt, dc⟩ = .ok sc)
+    (hnoerr : hasUsmError sc.pdu = false) (hpdu : (lookup sc.pdu.tag).kind = "pdu") :
+    V3Glue.incoming cr c (V3Glue.v3wire G F h p boots time pl trailing) fuel = .ok sc := by
+  unfold V3Glue.incoming
+  rw [V3Glue.v3OfBytes_wire G F h p boots time pl trailing fuel dt dc hok hF hb ht hpay hfuel]
+  simp only
+  have hacc : processIncoming cr c (inMsgOfWire ⟨intDecode true h.mid, intDecode true h.mms, fromBE h.flg, intDecode true h.mdl,
+      p.engineId, p.boots, p.time, p.user, p.auth, p.priv, dt, dc⟩ (V3Glue.v3wire G F h p boots time pl trailing)) = .ok sc := by
+    refine C10_accepts_authentic cr c (inMsgOfWire ⟨intDecode true h.mid, intDecode true h.mms, fromBE h.flg, intDecode true h.mdl,
+      p.engineId, p.boots, p.time, p.user, p.auth, p.priv, dt, dc⟩ (V3Glue.v3wire G F h p boots time pl trailing)) sc
+      huser hauthf hprivf ?_ hpayload hnoerr
+    intro pw hpw
+    obtain ⟨hlen, hmac⟩ := hagent pw hpw
+    refine ⟨V3Glue.v3wire G F h { p with auth := RawDigest.zeros12 } boots time pl trailing, ?_, hmac⟩
+    have hw := v3wire_eq_wire G F h p boots time pl trailing
+    have hw0 := v3wire_eq_wire G F h { p with auth := RawDigest.zeros12 } boots time pl trailing
+    have hparts : partsOf G F h { p with auth := RawDigest.zeros12 } boots time pl trailing = partsOf G F h p boots time pl trailing := rfl
+    rw [hparts] at hw0
+    simp only [inMsgOfWire]
+    rw [hw, RawDigest.reset_wire _ _ _ (shape_ok G F h p boots time pl trailing hok hF), hw0]
+    simp [hlen]
+  rw [hacc]
+  simp [hpdu]
+
+/-- non-vacuity: a noAuthNoPriv response with minimal length octets meets the well-formedness
+    hypotheses of `C10_fields_from_wire` / `C10_accepts_datagram`, and its payload step is the plain one -/
+example :
+    let G : V3Glue.MsgForms := ⟨.minimal, .minimal, .minimal, .minimal, .minimal, .minimal, .minimal, .minimal, .minimal⟩
+    let F : V3Glue.ParamForms := ⟨.minimal, .minimal, .minimal, .minimal, .minimal, .minimal⟩
+    let h : V3Glue.HdrC := ⟨[3], [1], [0, 255, 227], [0], [3]⟩
+    let p : UsmParams.Params := ⟨[128, 0, 31, 136, 1], 3, 9, [117], [], []⟩
+    let pdu : RawTlv := ⟨.minimal, 162, [2, 1, 1, 2, 1, 0, 2, 1, 0, 48, 0]⟩
+    let pl := V3Glue.tSeq .minimal (rawBytes [V3Glue.tStr .minimal [128, 0, 31, 136, 1], V3Glue.tStr .minimal [], pdu])
+    G.ok F h p [3] [9] pl ∧ F.ok p [3] [9] ∧ p.boots = intDecode true [3] ∧ fromBE h.flg / 2 % 2 = 0 := by
+  refine ⟨?_, ?_, by decide, by decide⟩
+  · simp [V3Glue.MsgForms.ok, LenForm.ok, V3Glue.msgItems, V3Glue.hdrItems, V3Glue.spBlock, V3Glue.paramItems, rawBytes,
+      RawTlv.bytes, RawTlv.ok, V3Glue.tStr, V3Glue.tInt, V3Glue.tSeq, Spec.tlv, specLength, lookup, Gen.registry, clsName,
+      natureName, Gen.noDefaultCtor]
+  · simp [V3Glue.ParamForms.ok, LenForm.ok]
+
 end Snmp.Props.C10
